@@ -11,6 +11,7 @@ not decided.
 import ast
 from typing import Dict, List, Optional, Set, Tuple
 
+from ..boolx import BoolEval, Unknown
 from ..model import AnalysisError
 from ..util import dotted, norm, short, walk_no_nested
 
@@ -352,6 +353,69 @@ def check(ctx):
     t = norm(iso.node)
     ctx.check("'allOf'" in t and "pop('$ref')" in t and "len(schema) > 1" in t, "C18.R5", iso.qualname, iso.node.body[0], "isolate_ref no longer moves $ref under allOf when it has siblings", iso, iso.node, detail="$ref with siblings -> allOf")
 
+    # ---------------- R7: every form in which builders emit a multi-valued `type` enters the type-splitting branch
+    ctx.rule("C18.R7", "OpenAPI 3.0 has single-valued `type`: the branch splitting a multi-valued type is entered for every container form the schema builders emit (list, set, tuple) and only skipped for a single str / JsonType", floor=3)
+    kinds = {}   # container kind -> producer site
+
+    def kind_of(e, fn_node, depth=0):
+        if depth > 4:
+            return set()
+        if isinstance(e, (ast.Set, ast.SetComp)) or (isinstance(e, ast.Call) and dotted(e.func) in ("set", "frozenset")):
+            return {"set"}
+        if isinstance(e, (ast.List, ast.ListComp)) or (isinstance(e, ast.Call) and dotted(e.func) in ("list", "sorted")):
+            return {"list"}
+        if isinstance(e, ast.Tuple) or (isinstance(e, ast.Call) and dotted(e.func) == "tuple"):
+            return {"tuple"}
+        if isinstance(e, ast.IfExp):
+            return kind_of(e.body, fn_node, depth + 1) | kind_of(e.orelse, fn_node, depth + 1)
+        if isinstance(e, ast.Name):
+            out = set()
+            for n in ast.walk(fn_node):
+                if isinstance(n, (ast.Assign, ast.AnnAssign)) and n.value is not None and any(isinstance(t_, ast.Name) and t_.id == e.id for t_ in ([n.target] if isinstance(n, ast.AnnAssign) else n.targets)):
+                    out |= kind_of(n.value, fn_node, depth + 1)
+            return out
+        return set()
+    for fi in model.funcs_in_module(SMOD):
+        for c in walk_no_nested(fi.node):
+            if isinstance(c, ast.Call) and (dotted(c.func) or "").split(".")[-1] in ("json_schema", "JsonSchema"):
+                for k in c.keywords:
+                    if k.arg == "type":
+                        for kd in kind_of(k.value, fi.node):
+                            kinds.setdefault(kd, f"{fi.qualname}: `{short(c, 50)}`")
+    ctx.require(kinds, "no producer of a multi-valued `type` found among the schema builders (literal() / unions)")
+    kinds.setdefault("list", "a type list written by the user (schema(extra=...)) or produced by a union of primitive types")
+    guards = [n for n in walk_no_nested(oa.node) if isinstance(n, ast.If) and any(isinstance(x, ast.ListComp) and "'null'" in norm(x) and ("type" in norm(x.generators[0].iter)) for b in n.body for x in ast.walk(b)) and "type" in norm(n.test)]
+    ctx.require(len(guards) == 1, "to_open_api_3_0: the branch splitting a multi-valued `type` was not recognised")
+    g = guards[0]
+    tlocals = {norm(n.targets[0]) for n in walk_no_nested(oa.node) if isinstance(n, ast.Assign) and norm(n.value) in ("result.get('type')", "result['type']", "result.get('type', None)")}
+    tvals = {"result['type']", "result.get('type')"} | tlocals
+    ABC = {"list": {"list", "Sequence", "MutableSequence", "Collection", "Iterable", "Sized", "Container"}, "tuple": {"tuple", "Sequence", "Collection", "Iterable", "Sized", "Container"},
+           "set": {"set", "Set", "AbstractSet", "MutableSet", "Collection", "Iterable", "Sized", "Container"}, "str": {"str", "Sequence", "Collection", "Iterable", "Sized", "Container"}, "JsonType": {"JsonType", "str", "Enum", "Sequence", "Collection", "Iterable", "Sized", "Container"}}
+
+    def special18(e, _):
+        if isinstance(e, ast.Call) and dotted(e.func) == "isinstance" and len(e.args) == 2 and norm(e.args[0]) in tvals:
+            cl = e.args[1].elts if isinstance(e.args[1], ast.Tuple) else [e.args[1]]
+            names_ = {(dotted(x) or "?").split(".")[-1] for x in cl}
+            return lambda v: bool(names_ & ABC[v["__kind"]])
+        if isinstance(e, ast.Compare) and len(e.ops) == 1 and isinstance(e.ops[0], ast.In) and norm(e.left) == "'type'" and norm(e.comparators[0]) == "result":
+            return lambda v: True
+        if isinstance(e, ast.Compare) and len(e.ops) == 1 and isinstance(e.ops[0], (ast.IsNot, ast.NotEq)) and norm(e.left) in tvals and norm(e.comparators[0]) == "None":
+            return lambda v: True
+        if isinstance(e, ast.Name) and e.id in tlocals:
+            return lambda v: True
+        return None
+    ev18 = BoolEval({}, special=special18)
+    try:
+        gfn = ev18.compile(g.test)
+        for kd, site in sorted(kinds.items()):
+            ctx.check(bool(gfn({"__kind": kd})), "C18.R7", f"to_open_api_3_0:type as {kd}", None,
+                      f"`if {short(g.test, 70)}` is false for a `type` held in a {kd} ({site}): the OpenAPI 3.0 output keeps a multi-valued type (not allowed there) and `null` in it is never turned into nullable",
+                      oa, g, detail=f"guard true for {kd}")
+        for kd in ("str", "JsonType"):
+            ctx.check(not gfn({"__kind": kd}), "C18.R7", f"to_open_api_3_0:type as {kd}", None, f"`if {short(g.test, 70)}` is true for a single {kd} type: it would be iterated character by character", oa, g, detail=f"guard false for {kd}")
+    except Unknown as err:
+        ctx.undecided("C18.R7", f"to_open_api_3_0: guard of the type-splitting branch: {err}")
+
     # ---------------- R3
     ctx.rule("C18.R3", "the dialect conversion is applied at every nesting level", floor=4)
     jv = model.cls(f"{VMOD}.JsonSchemaVersion")
@@ -402,6 +466,9 @@ def check(ctx):
 
 def mutants(mb):
     V = "apischema/json_schema/versions.py"
+    mb.add_text("type-guard-sequence", V, '    if "type" in result and not isinstance(result["type"], (str, JsonType)):\n', '    if isinstance(result.get("type"), Sequence) and not isinstance(result.get("type"), str):\n', "C18.R7", "type as set")
+    mb.add_text("type-guard-list-only", V, '    if "type" in result and not isinstance(result["type"], (str, JsonType)):\n', '    if isinstance(result.get("type"), list):\n', "C18.R7", "type as set")
+    mb.add_text("neg-type-guard-collections", V, '    if "type" in result and not isinstance(result["type"], (str, JsonType)):\n', '    if isinstance(result.get("type"), (list, tuple, set, frozenset)):\n', negative=True)
     S = "apischema/json_schema/schema.py"
     mb.add_text("prefixitems-kept", V, '        result["items"] = result.pop("prefixItems")\n', '        result["items"] = result["prefixItems"]\n', "C18.R1", "prefixItems")
     mb.add_text("defs-not-renamed", V, '    if "$defs" in result:\n        result["definitions"] = {**result.pop("$defs"), **result.get("definitions", {})}\n', "", "C18.R", "DRAFT_7")
